@@ -184,10 +184,21 @@ class Ref:
         self.taper = np.array(RT.tukey(L, tukey))
         self.max_raw = 0.0
 
+    bins = None     # when set: only these DFT bins are evaluated (long windows), others are 0
+
     def spec(self, x):
         if self.n < self.L:
             raise ValueError("n < L")
-        a = np.abs(_dft_matrix(self.n, self.L) @ (np.asarray(x) * self.taper))
+        xt = np.asarray(x) * self.taper
+        if self.bins is not None:
+            a = np.zeros(self.n // 2 + 1)
+            k = np.asarray(self.bins, dtype=np.int64)[:, None]
+            j = np.arange(self.L, dtype=np.int64)[None, :]
+            a[self.bins] = np.abs(np.exp(-2j * np.pi * ((k * j) % self.n) / self.n) @ xt)
+            # scale of the whole spectrum (Parseval bound) for the conditioning guard
+            self.max_raw = max(self.max_raw, float(a.max()))
+            return a
+        a = np.abs(_dft_matrix(self.n, self.L) @ xt)
         self.max_raw = max(self.max_raw, float(a.max()))
         return a
 
@@ -206,6 +217,11 @@ def reference(kind, cfg, fcs, recs_arrays, dt, n):
     """-> (curves 2-D, mask of centres not to compare (knife-edge or ill-conditioned), positive flag)"""
     op, bw = cfg["smoothing"]
     r = Ref(recs_arrays, dt, cfg["tukey"], n)
+    if len(recs_arrays[0][0]) > 4096:
+        # long window: evaluate only the DFT bins that carry kernel weight
+        Wm, _ = r.smooth(op, bw, fcs, np.zeros((1, n // 2 + 1)))[0], None
+        Wfull = _W_CACHE[(op, bw, tuple(fcs), n, dt)][0]
+        r.bins = np.nonzero(np.abs(Wfull).sum(axis=0) > 0)[0]
     k = kind["kind"]
     rows_h, rows_v = [], []
     if k == "fd":
@@ -288,7 +304,36 @@ def roots(tier, seed):
     for wi, w in enumerate(wins):
         for kind in ks:
             out.append(dict(window=list(w), kind=kind, wi=wi))
+    return _long_roots(tier) + out
+
+
+LONG_LENGTHS = [32768, 32769, 40000]
+LONG_KINDS = [dict(kind="fd", method="geometric_mean"), dict(kind="single", method="single_azimuth", azimuth=30),
+              dict(kind="rotdpp", percentile=50, azset="two"), dict(kind="diffuse", nwin=2)]
+
+
+def _long_roots(tier):
+    out = []
+    for L in LONG_LENGTHS:
+        for kind in (LONG_KINDS if tier == "thorough" else LONG_KINDS[:2] + LONG_KINDS[3:]):
+            out.append(dict(window=["noise1", "noise2", "noise3", L, 0.01, 1.0], kind=kind, wi=-1, long=True))
     return out
+
+
+def _run_long(root, ctx):
+    """Windows longer than 2**15 samples: the default FFT length must still cover the window."""
+    w = tuple(root["window"])
+    kind = root["kind"]
+    L, dt = w[3], w[4]
+    fs = 1.0 / dt
+    tag = _kind_tag(kind)
+    for fft in ("default", "nopad"):
+        n_guess = L if fft == "nopad" else 65536
+        df = fs / n_guess
+        cfg = dict(fft=fft, smoothing=["linear_rectangular", 6 * df], tukey=0.1, fcs="long")
+        fcs = [0.0501 * fs, 0.2003 * fs, 0.4007 * fs]
+        ctx.count("states")
+        _one_case(ctx, root, kind, tag, w, kind.get("nwin", 1), cfg, fcs, metamorphic=False)
 
 
 def _kind_tag(kind):
@@ -308,6 +353,10 @@ def _ndev(space, cfg):
 
 
 def run_root(root, ctx, tier):
+    if root.get("long"):
+        _run_long(root, ctx)
+        ctx.nontrivial_case(("long", root["window"][3], repr(root["kind"])))
+        return
     w = tuple(root["window"])
     kind = root["kind"]
     L, dt = w[3], w[4]
